@@ -296,7 +296,9 @@ void session_interface::update_exposed(bool force)
 				if(cp->first.compare(0,prefix.size(),prefix)!=0)	
 					continue;
 				std::string key = cp->first.substr(prefix.size());
-				if(removed.find(key)!=removed.end())
+				// "<prefix>_" is not one of ours: with an empty key the cookie to delete
+				// would be the session cookie itself
+				if(key.empty() || removed.find(key)!=removed.end())
 					continue;
 				data_type::iterator ptr;
 				if((ptr = data_.find(key))==data_.end() || !ptr->second.exposed) {
@@ -310,7 +312,7 @@ void session_interface::update_exposed(bool force)
 				if(cp->compare(0,prefix.size(),prefix)!=0)	
 					continue;
 				std::string key = cp->substr(prefix.size());
-				if(removed.find(key)!=removed.end())
+				if(key.empty() || removed.find(key)!=removed.end())
 					continue;
 				data_type::iterator ptr;
 				if((ptr = data_.find(key))==data_.end() || !ptr->second.exposed) {
